@@ -131,6 +131,29 @@ def tlc_mc(tla, cfg, metadir, workers=NCPU, timeout=3600, xmx="8g", extra=(), en
             "what": f"{tla}/{cfg}"}
 
 
+def apalache_check(tla, inv, outdir, length=0, timeout=1800):
+    """Symbolic check with Apalache (SMT): the invariant holds in every state reachable in `length` steps from
+    EVERY initial state (Init may leave integers unconstrained).  Returns the same dict shape as tlc_mc."""
+    t0 = time.time()
+    cmd = ["apalache-mc", "check", f"--length={length}", f"--inv={inv}", f"--out-dir={outdir}", tla]
+    try:
+        p = subprocess.run(cmd, cwd=SPEC, stdout=subprocess.PIPE, stderr=subprocess.STDOUT, text=True, timeout=timeout)
+    except subprocess.TimeoutExpired:
+        shutil.rmtree(outdir, ignore_errors=True)
+        raise ToolError(f"apalache timed out after {timeout}s on {tla}")
+    out = p.stdout
+    shutil.rmtree(outdir, ignore_errors=True)
+    ok = "The outcome is: NoError" in out and p.returncode == 0
+    if not ok and "The outcome is: Error" not in out:
+        raise ToolError(f"apalache failed on {tla} rc={p.returncode}:\n{out[-2500:]}")
+    log(f"[apalache] {tla} inv={inv} length={length}: ok={ok} {time.time()-t0:.1f}s")
+    # a violated invariant is reported through the usual path (add_mc looks for this phrase)
+    if not ok:
+        out += "\nInvariant " + inv + " is violated (apalache)"
+    return {"what": f"apalache {tla} inv={inv} length={length} (all integers)", "generated": 0, "distinct": 0, "ok": ok,
+            "out": out, "rc": p.returncode}
+
+
 def _trace_one(tla, cfg, shard, metadir, env, timeout, xmx):
     cmd = _java(xmx=xmx) + ["-workers", "1", "-metadir", metadir, "-cleanup", "-noGenerateSpecTE",
                             "-config", cfg, tla]
